@@ -584,7 +584,7 @@ def run_case(case):
     wired_src = ["alpha", "ZETA", None]
     if case.get("modules"):
         modules = {}
-        for mname, (fa, fb) in (("North", (1.5, 0.25)), ("South Wing", (0.5, 1.0))):
+        for mname, (fa, fb) in (("NorthEast", (1.5, 0.25)), ("South Wing", (0.5, 1.0))):      # (a capital inside a word: XMILE names are case-insensitive)
             mvals = {n: v * fa + (fb if v >= 0 else -fb) for n, v in CONSTS}
             mvals["alpha_twin"] = mvals["alpha"]
             mels = [dict(kind="aux", name=n, eqn=(repr(mvals[n]) if mvals[n] >= 0 else "0 - %r" % abs(mvals[n]))) for n, v in CONSTS] + \
@@ -625,16 +625,22 @@ def run_case(case):
                 mels2 = [dict(kind="aux", name="wired in", access="input", eqn="100"), dict(kind="aux", name="other in", access="input", eqn="1000"),
                          dict(kind="aux", name="wired_probe", eqn="wired_in * 2 - 1"), dict(kind="aux", name="other_probe", eqn="other_in + 1")]
                 els2 = [dict(kind="aux", name="alpha", eqn="7"), dict(kind="aux", name="ZETA", eqn="1.5")]
-                cons = [("North.wired_in", plan["a"])] * bool(plan["a"]) + [("North.other_in", plan["b"])] * bool(plan["b"])
-                cls2, _s2, _d2 = XM.compile_and_load(XM.document(mod2, RUN, els2, modules={"North": mels2}, connects={"North": cons} if cons else {}, modules_first=bool(step_ % 2)), "xm", mod2)
+                cons = [("HRdept.wired_in", plan["a"])] * bool(plan["a"]) + [("HRdept.other_in", plan["b"])] * bool(plan["b"])
+                cls2, _s2, _d2 = XM.compile_and_load(XM.document(mod2, RUN, els2, modules={"HRdept": mels2}, connects={"HRdept": cons} if cons else {}, modules_first=bool(step_ % 2)), "xm", mod2)
                 m2 = cls2()
                 val = {"alpha": 7.0, "ZETA": 1.5}
-                got2 = (m2.equation("north.wiredProbe", 1.5), m2.equation("north.otherProbe", 1.5))
+                try:
+                    got2 = (m2.equation(sname("HRdept") + ".wiredProbe", 1.5), m2.equation(sname("HRdept") + ".otherProbe", 1.5))
+                except Exception as e:
+                    cleanup(mod2)
+                    w = dict(kind="in-grammar-equation-raises", scope=sname("HRdept") + ".", equation="wired_in * 2 - 1 ; other_in + 1", tree="-", t=1.5, error="%s: %s" % (type(e).__name__, str(e)[:150]),
+                             note="a variable of a module named HRdept is not found under the module's (case-insensitive) name")
+                    break
                 want2 = ((val[plan["a"]] if plan["a"] else 100.0) * 2 - 1, (val[plan["b"]] if plan["b"] else 1000.0) + 1)
                 cleanup(mod2)
                 counters["rewired_follow_up_documents"] = counters.get("rewired_follow_up_documents", 0) + 1
                 if not (X.close(got2[0], want2[0]) and X.close(got2[1], want2[1])):
-                    w = dict(kind="value", key="module-rewired-in-a-later-document", scope="north.", equation="wired_in * 2 - 1 ; other_in + 1", style="plain", tree="-", t=1.5,
+                    w = dict(kind="value", key="module-rewired-in-a-later-document", scope=sname("HRdept") + ".", equation="wired_in * 2 - 1 ; other_in + 1", style="plain", tree="-", t=1.5,
                              got=[float(x) for x in got2], expected=list(want2), wiring=plan, earlier_documents=plans[:step_])
                     break
         for (vn, key, tree, sidx) in ([] if w else nonneg):
@@ -655,7 +661,11 @@ def run_case(case):
                 break
         for (scope, _sv) in ([] if w else scopes[1:]):
             # the wired input is the root's alpha
-            got = m.equation(scope + "wiredProbe", 1.5)
+            try:
+                got = m.equation(scope + "wiredProbe", 1.5)
+            except Exception as e:
+                w = dict(kind="in-grammar-equation-raises", scope=scope, equation="wired_in * 2 - 1", tree="(wired_in * 2 - 1)", t=1.5, error="%s: %s" % (type(e).__name__, str(e)[:150]))
+                break
             counters["wired_inputs_checked"] = counters.get("wired_inputs_checked", 0) + 1
             want = (vals[wiring[scope]] if wiring[scope] is not None else 100.0) * 2 - 1
             if not X.close(got, want, rel=1e-9, ab=1e-10):
